@@ -21,7 +21,7 @@ SPEC = {
                     "a different entry point from the one TUCAN calls); cross-checked against brute-force orbits for n<=7 on every run",
                     "molecules <= 400 atoms for the orbit check"],
     "monitors_required": ["c13_classes", "c13_orbit_check", "c13_label_independence", "c13_orbit_crosscheck"],
-    "required_obs": {"quick": ["shadow_inputs_with_noncontiguous_labels", "cov_foreign_attributes_with_common_names", "shadow_inputs_with_stale_partition", "shadow_inputs_relabelled_canonical_graph", "c13_classes_coarser_than_orbits", "c13_cases_with_nontrivial_symmetry", "cov_symmetric_partial_orbit", "cov_long_refinement", "cov_refinement_ge_64_rounds_by_construction", "cov_hydrogen_free_polycyclic", "cov_refinement_rounds_gt_half_n", "cov_corpus"]},
+    "required_obs": {"quick": ["cov_debug_logging_enabled", "shadow_inputs_with_noncontiguous_labels", "cov_foreign_attributes_with_common_names", "shadow_inputs_with_stale_partition", "shadow_inputs_relabelled_canonical_graph", "c13_classes_coarser_than_orbits", "c13_cases_with_nontrivial_symmetry", "cov_symmetric_partial_orbit", "cov_long_refinement", "cov_refinement_ge_64_rounds_by_construction", "cov_hydrogen_free_polycyclic", "cov_refinement_rounds_gt_half_n", "cov_corpus"]},
     "watchdog_s": {"quick": 900, "thorough": 3600},
 }
 PLAN = {
